@@ -174,6 +174,15 @@ fn validate_size(recognizer: &Recognizer) -> Result<Size> {
   })
 }
 
+/// Returns the text of a cell with allowed values, or [None] when the cell is left blank.
+fn non_blank(text: &str) -> Option<String> {
+  if text.trim().is_empty() {
+    None
+  } else {
+    Some(text.to_string())
+  }
+}
+
 /// Builds a decision table from text.
 pub fn build(text: &str) -> Result<DecisionTable> {
   // recognize the components of decision table
@@ -196,7 +205,7 @@ pub fn build(text: &str) -> Result<DecisionTable> {
     inputs.push(InputClause {
       input_expression: recognizer.input_expressions[i].clone(),
       input_values: if size.input_values_count > 0 {
-        Some(recognizer.input_values[i].clone())
+        non_blank(&recognizer.input_values[i])
       } else {
         None
       },
@@ -213,7 +222,7 @@ pub fn build(text: &str) -> Result<DecisionTable> {
         None
       },
       output_values: if size.output_values_count > 0 {
-        Some(recognizer.output_values[i].clone())
+        non_blank(&recognizer.output_values[i])
       } else {
         None
       },
